@@ -21,9 +21,10 @@ def gen(rng: random.Random, tier: str):
         rows = [[100 + u, 1000 + i, float(rng.choice([0.5, 1, 2, 3, 3.5, 4, 5]))] for u in range(nu) for i in range(ni) if rng.random() < 0.5]
         if len({r[0] for r in rows}) < 2 or len({r[1] for r in rows}) < 2: continue
         reg = rng.choice([0.01, 0.1, 1.0])
-        yield {"kind": ["explicit", "implicit", "funksvd"][k % 3], "rows": rows, "nf": rng.randint(1, 4), "epochs": rng.randint(1, 4), "reg_user": reg, "reg_item": rng.choice([reg, reg * 3]),
+        kind = ["explicit", "implicit", "funksvd"][k % 3]
+        yield {"kind": kind, "rows": rows, "nf": rng.randint(2, 4) if kind == "funksvd" and k % 2 else rng.randint(1, 4), "epochs": rng.randint(1, 4), "reg_user": reg, "reg_item": rng.choice([reg, reg * 3]),
                "damping": rng.choice([0, 5]), "weight": rng.choice([1, 10, 40]), "seed": rng.randrange(10**6), "lrate": rng.choice([0.001, 0.01, 0.05]),
-               "range": rng.choice([None, [0.5, 5.0], [1.0, 4.0]]), "extra_item": rng.random() < 0.3, "extra_user": rng.random() < 0.3}
+               "range": rng.choice([None, [0.5, 5.0], [1.0, 4.0], [2.0, 3.5], [2.0, 3.5]]), "extra_item": rng.random() < 0.3, "extra_user": rng.random() < 0.3}
 
 def _als(case, lean):
     import pandas as pd
